@@ -14,6 +14,7 @@ package main
 
 import (
 	"fmt"
+	"os"
 	"go/types"
 	"sort"
 	"strings"
@@ -345,9 +346,12 @@ func (st *funcState) loadFrom(p ssa.Value) rootSet {
 	out := rootSet{}
 	for r := range st.origins(p) {
 		if r.Kind == rFresh {
-			out[r] = true
+			// the loaded value refers to what was stored in the object, not to
+			// the object itself (a site-less fresh root stands for itself)
 			if r.Site != nil {
 				out.addAll(st.contents[r.Site])
+			} else {
+				out[r] = true
 			}
 			continue
 		}
@@ -575,7 +579,9 @@ func (e *Effects) analyse(f *ssa.Function, first bool) {
 			switch x := in.(type) {
 			case *ssa.Store:
 				if refCarrying(x.Val.Type()) {
-					vals := st.deep(x.Val)
+					// direct referents only: what they contain in turn is found
+					// through their own contents when a reader goes deep
+					vals := st.origins(x.Val)
 					for r := range st.origins(x.Addr) {
 						if r.Kind == rFresh && r.Site != nil {
 							st.addContents(r.Site, vals)
@@ -584,8 +590,8 @@ func (e *Effects) analyse(f *ssa.Function, first bool) {
 				}
 			case *ssa.MapUpdate:
 				vals := rootSet{}
-				vals.addAll(st.deep(x.Value))
-				vals.addAll(st.deep(x.Key))
+				vals.addAll(st.origins(x.Value))
+				vals.addAll(st.origins(x.Key))
 				for r := range st.origins(x.Map) {
 					if r.Kind == rFresh && r.Site != nil {
 						st.addContents(r.Site, vals)
@@ -658,6 +664,12 @@ func (e *Effects) analyse(f *ssa.Function, first bool) {
 			if first {
 				e.MapUpdates++
 			}
+			if os.Getenv("SID_DEBUG_EFFECTS") != "" && strings.Contains(fname, os.Getenv("SID_DEBUG_EFFECTS")) {
+				fmt.Fprintf(os.Stderr, "DEBUG %s: map %s origins=%v\n", fname, x.Map.Name(), st.origins(x.Map))
+				for site, c := range st.contents {
+					fmt.Fprintf(os.Stderr, "   contents[%s]=%v\n", site.Name(), c)
+				}
+			}
 			wr(st.origins(x.Map), &Witness{Pos: pos, What: "map update " + shortInstr(x) + " in " + fname})
 		case *ssa.Send:
 			wr(st.origins(x.Chan), &Witness{Pos: pos, What: "channel send in " + fname})
@@ -706,18 +718,22 @@ func (st *funcState) crossStore(c *ssa.Call) {
 	args := st.callArgs(c)
 	for _, g := range callees {
 		s := st.e.Summary(g)
-		js := map[int]bool{}
+		js := map[int]bool{} // value: the callee also writes memory reached through loads
 		for j := range s.WritesParam {
-			js[j] = true
+			js[j] = false
 		}
 		for j := range s.WritesParamDeep {
 			js[j] = true
 		}
-		for j := range js {
-			if j >= len(args) {
+		for j, deepWrite := range js {
+			if j >= len(args) || !holdsRefs(args[j].Type()) {
 				continue
 			}
-			for r := range st.deep(args[j]) {
+			targets := st.origins(args[j]) // a shallow writer reaches the referred object only
+			if deepWrite {
+				targets = st.deep(args[j])
+			}
+			for r := range targets {
 				if r.Kind != rFresh || r.Site == nil {
 					continue
 				}
@@ -813,4 +829,21 @@ func (e *Effects) applyCall(st *funcState, sum *FuncEffect, c ssa.CallInstructio
 			}
 		}
 	}
+}
+
+// holdsRefs: memory reachable from a value of type t can hold a reference
+// (a []string, *int64 or map[string]bool cannot: nothing another argument
+// refers to can be stored inside it).
+func holdsRefs(t types.Type) bool {
+	switch u := t.Underlying().(type) {
+	case *types.Pointer:
+		return refCarrying(u.Elem())
+	case *types.Slice:
+		return refCarrying(u.Elem())
+	case *types.Map:
+		return refCarrying(u.Key()) || refCarrying(u.Elem())
+	case *types.Chan:
+		return refCarrying(u.Elem())
+	}
+	return refCarrying(t)
 }
